@@ -46,7 +46,12 @@ def main():
         i = args.index('--tier')
         tier = args[i + 1]
         del args[i:i + 2]
+    missing_only = '--missing' in args
+    if missing_only:
+        args.remove('--missing')
     ids = args or sorted(os.path.basename(p) for p in glob.glob(os.path.join(VERIF, 'seeded', 'C*-*')))
+    if missing_only:
+        ids = [i for i in ids if not os.path.exists(os.path.join(VERIF, 'seeded', i, 'detection.json'))]
     saved = {}
     for sid in ids:
         prop = json.load(open(os.path.join(VERIF, 'seeded', sid, 'meta.json')))['property']
